@@ -143,9 +143,47 @@ def is_external_macro(sp):
     return bool(sp) and sp.get("exp") and sp.get("mlocal") is False and (sp.get("outer_mname") or sp.get("mname")) not in ("", None)
 
 
+def _adts_in_ty(t, out):
+    if not isinstance(t, dict):
+        return
+    k = t.get("k")
+    if k == "adt":
+        out.add(t["path"])
+        for a in t.get("args", []) or []:
+            _adts_in_ty(a, out)
+    elif k in ("ref", "ptr"):
+        _adts_in_ty(t.get("to"), out)
+    elif k in ("array", "slice"):
+        _adts_in_ty(t.get("elem"), out)
+    elif k == "tuple":
+        for a in t.get("elems", []) or []:
+            _adts_in_ty(a, out)
+
+
+def trait_impl_index(prog):
+    """ADT path -> trait-impl methods defined for it in the workspace"""
+    idx = getattr(prog, "_trait_impl_index", None)
+    if idx is None:
+        idx = {}
+        for path, f in prog.fns.items():
+            im = f.get("impl")
+            if im and im.get("trait") and isinstance(im.get("self_ty"), dict):
+                s = set()
+                _adts_in_ty(im["self_ty"], s)
+                st = im["self_ty"]
+                if st.get("k") == "adt":
+                    idx.setdefault(st["path"], []).append(path)
+        prog._trait_impl_index = idx
+    return idx
+
+
 def reachable_fns(prog, roots, within_crates):
+    """call-graph closure. A call to a function outside the workspace that is instantiated with a workspace type T may call back
+    any trait method implemented for T (Display through format arguments, readers through deku's generic containers, ...), so those
+    impl methods are reachable too."""
     seen = set()
     todo = list(roots)
+    tix = trait_impl_index(prog)
     while todo:
         p = todo.pop()
         if p in seen:
@@ -158,6 +196,12 @@ def reachable_fns(prog, roots, within_crates):
             todo.append(cp)
             for cd in c["callee"].get("closure_defs", []) or []:
                 todo.append(cd)
+            if cp not in prog.fns:
+                adts = set()
+                for ta in c["callee"].get("targs", []) or []:
+                    _adts_in_ty(ta, adts)
+                for a in adts:
+                    todo.extend(tix.get(a, ()))
         for b in f["blocks"]:
             for s in b["stmts"]:
                 if "assign" in s:
